@@ -142,6 +142,36 @@ func genC19(c *ctx) {
 		st.Add(&cs.Case{Coq: coqw.App("KParts", pk(hdr), coqw.List(parts)), OracleFail: printFail,
 			Desc: map[string]any{"op": "bundle.parseToks", "header": hdr, "impl_parts": descs}, Class: class, Nontrivial: true})
 	}
+	// scale: tokens of several KiB (around 4096 bytes and beyond), alone and between small ones: formatted, then parsed back
+	for _, sz := range []int{4095, 4096, 4097, 6144, 8193, 12289, 20000} {
+		big := make([]byte, sz)
+		for k := range big {
+			big[k] = byte(k*7 + sz)
+		}
+		for vi, toks := range [][][]byte{{big}, {{1, 2, 3}, big, {4, 5}}, {big, big[:sz-1]}} {
+			hdr := macaroon.ToAuthorizationHeader(toks...)
+			var cse *cs.Case
+			if sz <= 4097 && vi < 2 {
+				// around the threshold the model evaluates the header too (its base64 is quadratic in Coq: larger ones are
+				// judged by the round-trip oracle alone)
+				st.Add(&cs.Case{Coq: coqw.App("KToHeader", coqw.ListOf(toks, func(b []byte) string { return coqw.Packed(b) }), pk(hdr)),
+					Desc: map[string]any{"op": "ToAuthorizationHeader", "ntoks": len(toks), "token_bytes": sz}, Class: "format/large", Nontrivial: true})
+				cse = addParse(hdr, "roundtrip/large", true)
+			} else {
+				cse = addParse(macaroon.ToAuthorizationHeader([]byte{1, 2, 3}), "roundtrip/large-oracle-only", true)
+				cse.Desc.(map[string]any)["large_token_bytes"] = sz
+			}
+			if back, err := macaroon.Parse(hdr); err != nil || len(back) != len(toks) {
+				cse.OracleFail = fmt.Sprintf("a header formatted from %d tokens (one of %d bytes) does not parse back: %v", len(toks), sz, err)
+			} else {
+				for k := range toks {
+					if !bytes.Equal(back[k], toks[k]) {
+						cse.OracleFail = fmt.Sprintf("token %d (%d bytes) comes back different from a format/parse round trip", k, len(toks[k]))
+					}
+				}
+			}
+		}
+	}
 	n := 500
 	if c.thorough {
 		n = 12000
@@ -373,6 +403,43 @@ func genC19(c *ctx) {
 			}
 			if got, want := len(flyio.NonceEmails(fb)), fb.Count(flyio.IsPermissionToken); got != want {
 				wrapFail = fmt.Sprintf("flyio.NonceEmails lists %d tokens, the bundle has %d permission tokens", got, want)
+			}
+		}
+		// the same header read for OTHER issuers right afterwards (and for this one again): the split follows the location asked
+		// for in THIS call, whatever was asked before
+		allDecode := true
+		for _, t := range toks {
+			if _, e := macaroon.Decode(t); e != nil {
+				allDecode = false // what happens to undecodable entries is the model's business (KFindOne), not this oracle's
+			}
+		}
+		if wrapFail == "" && allDecode {
+			locs := []string{"https://nobody.test", permLoc}
+			for _, t := range toks {
+				if dm, e := macaroon.Decode(t); e == nil && dm.Location != permLoc {
+					locs = append([]string{dm.Location}, locs...)
+					break
+				}
+			}
+			for _, l2 := range locs {
+				var want [][]byte
+				var rest [][]byte
+				for _, t := range toks {
+					if dm, e := macaroon.Decode(t); e == nil && dm.Location == l2 {
+						want = append(want, t)
+					} else {
+						rest = append(rest, t)
+					}
+				}
+				one2, ds2, err2 := macaroon.ParsePermissionAndDischargeTokens(hdr, l2)
+				switch {
+				case len(want) == 1 && err2 != nil:
+					wrapFail = fmt.Sprintf("the header has exactly one token of %s, ParsePermissionAndDischargeTokens(hdr, %q) fails: %v (the same header was read for %s before)", l2, l2, err2, permLoc)
+				case len(want) == 1 && (!bytes.Equal(one2, want[0]) || len(ds2) != len(rest)):
+					wrapFail = fmt.Sprintf("ParsePermissionAndDischargeTokens(hdr, %q) does not return the header's token of that location with the %d others (the same header was read for %s before)", l2, len(rest), permLoc)
+				case len(want) != 1 && err2 == nil:
+					wrapFail = fmt.Sprintf("the header has %d tokens of %s, yet ParsePermissionAndDischargeTokens(hdr, %q) succeeds (the same header was read for %s before)", len(want), l2, l2, permLoc)
+				}
 			}
 		}
 		var pi uint64
